@@ -32,6 +32,34 @@ func extraFacts(lf *leanFile) {
 	ociFacts(lf)
 	retryFacts(lf)
 	remoteFacts(lf)
+	refFacts(lf)
+}
+
+// refFacts: ValidateRegistry accepts a registry only when the host net/url parsed out of it
+// is the whole string (no user-info, query or fragment around it).
+func refFacts(lf *leanFile) {
+	cmp := "false"
+	if fd := funcDecl("registry/reference.go", "Reference", "ValidateRegistry"); fd != nil {
+		ast.Inspect(fd.Body, func(n ast.Node) bool {
+			ifs, ok := n.(*ast.IfStmt)
+			if !ok {
+				return true
+			}
+			ast.Inspect(ifs.Cond, func(m ast.Node) bool {
+				if b, ok := m.(*ast.BinaryExpr); ok && b.Op.String() == "!=" {
+					x, y := exprString(b.X), exprString(b.Y)
+					if (x == "uri.Host" && y == "r.Registry") || (y == "uri.Host" && x == "r.Registry") {
+						cmp = "true"
+					}
+				}
+				return true
+			})
+			return true
+		})
+	} else {
+		miss("registry/reference.go:ValidateRegistry")
+	}
+	lf.def("registryHostMustEqual", "Bool", cmp)
 }
 
 // ociFacts: structural facts about content/oci/oci.go that the OCI model is parameterised by.
